@@ -442,6 +442,12 @@ func (g *Generator) generateWithoutSaving(parents []*theTypeInfo, t reflect.Type
 			return openapi3.NewSchemaRef(t.Name(), schema), nil
 		}
 
+		// A struct without visible fields has no properties: NewSchemaRefForValue only stores
+		// component schemas that have properties, so its (empty) schema stays in place
+		if schema.Properties == nil {
+			return openapi3.NewSchemaRef(t.Name(), schema), nil
+		}
+
 		typeName := g.generateTypeName(t)
 
 		g.componentSchemaRefs[typeName] = struct{}{}
